@@ -102,7 +102,9 @@ Fixpoint c10_ne (a b : big) : bool :=
 Definition c10_eq (a b : big) : bool := negb (c10_ne a b).
 
 (* operator/= and %= : repeated subtraction.  Results:  *)
-Inductive c10_res := C10_Ok (v : big) | C10_MathError | C10_OutOfFuel.
+Inductive c10_res := C10_Ok (v : big) | C10_MathError | C10_OutOfFuel
+  | C10_Exception      (* Dune::Exception of the constructor from a negative signed integer *)
+  | C10_OutOfBounds.   (* an index past digit[n-1] would be read/written (undefined behaviour in C++) *)
 Fixpoint c10_div_loop (fuel : nat) (a x result : big) : c10_res :=
   match fuel with
   | O => C10_OutOfFuel
@@ -163,7 +165,7 @@ Definition c10_shr (a : big) (s : N) : big :=
    to uint_least32_t, i.e. modulo 2^32), digit[0] for n = 1. *)
 Definition c10_touint (a : big) : N :=
   match a with
-  | d0 :: d1 :: _ => (N.shiftl d1 c10_bits + d0) mod 2 ^ 32
+  | d0 :: d1 :: _ => (N.shiftl d1 c10_bits + d0) mod 2 ^ c10_param_touint_bits
   | [d0] => d0
   | [] => 0
   end.
@@ -189,11 +191,135 @@ Definition c10_hexchar (x : N) : ascii :=
   | 0 => "0" | 1 => "1" | 2 => "2" | 3 => "3" | 4 => "4" | 5 => "5" | 6 => "6" | 7 => "7"
   | 8 => "8" | 9 => "9" | 10 => "a" | 11 => "b" | 12 => "c" | 13 => "d" | 14 => "e" | _ => "f"
   end%char.
+(* for (int d=hexdigits-1; d>=0; d--)  current = (digit[i]>>(d*4))&0xF *)
 Definition c10_print_digit (d : N) : list ascii :=
-  map (fun s => c10_hexchar (N.land (N.shiftr d (4 * s)) 15)) [3; 2; 1; 0].
+  map (fun s => c10_hexchar (N.land (N.shiftr d (c10_param_nibble_bits * N.of_nat s)) c10_param_nibble_mask))
+      (rev (seq 0 (N.to_nat c10_param_hexdigits))).
 Definition c10_print (a : big) : list ascii := flat_map c10_print_digit (rev a).
 
 (* numeric_limits *)
-Definition c10_max (n : nat) : big := repeat (2 ^ 16 - 1) n.
-Definition c10_min (n : nat) : big := c10_zero n.
+Definition c10_max (n : nat) : big := repeat c10_param_max_digit n.
+Definition c10_min (n : nat) : big := c10_assign n c10_param_lim_min_literal.
 Definition c10_limit_digits (n : nat) : N := c10_bits * N.of_nat n.
+
+(* every member of std::numeric_limits<bigunsignedint<k>>; the constants are re-read from the source.
+   The function members other than max() are `static_cast<bigunsignedint<k>>(<literal>)`, i.e. the
+   constructor from (signed) int applied to the literal. *)
+Record c10_limits := {
+  c10_l_is_specialized : bool; c10_l_is_signed : bool; c10_l_is_integer : bool; c10_l_is_exact : bool;
+  c10_l_radix : N; c10_l_digits : N;
+  c10_l_min_exponent : N; c10_l_min_exponent10 : N; c10_l_max_exponent : N; c10_l_max_exponent10 : N;
+  c10_l_has_infinity : bool; c10_l_has_quiet_NaN : bool; c10_l_has_signaling_NaN : bool;
+  c10_l_has_denorm_plus1 : N; c10_l_has_denorm_loss : bool;
+  c10_l_is_iec559 : bool; c10_l_is_bounded : bool; c10_l_is_modulo : bool; c10_l_traps : bool; c10_l_tinyness_before : bool;
+  c10_l_round_style_plus1 : N;
+  c10_l_min : big; c10_l_max : big; c10_l_epsilon : big; c10_l_round_error : big;
+  c10_l_infinity : big; c10_l_quiet_NaN : big; c10_l_signaling_NaN : big; c10_l_denorm_min : big }.
+Definition c10_numeric_limits (n : nat) : c10_limits := {|
+  c10_l_is_specialized := c10_param_lim_is_specialized; c10_l_is_signed := c10_param_lim_is_signed;
+  c10_l_is_integer := c10_param_lim_is_integer; c10_l_is_exact := c10_param_lim_is_exact;
+  c10_l_radix := c10_param_lim_radix; c10_l_digits := c10_limit_digits n;
+  c10_l_min_exponent := c10_param_lim_min_exponent; c10_l_min_exponent10 := c10_param_lim_min_exponent10;
+  c10_l_max_exponent := c10_param_lim_max_exponent; c10_l_max_exponent10 := c10_param_lim_max_exponent10;
+  c10_l_has_infinity := c10_param_lim_has_infinity; c10_l_has_quiet_NaN := c10_param_lim_has_quiet_NaN;
+  c10_l_has_signaling_NaN := c10_param_lim_has_signaling_NaN;
+  c10_l_has_denorm_plus1 := c10_param_lim_has_denorm_plus1; c10_l_has_denorm_loss := c10_param_lim_has_denorm_loss;
+  c10_l_is_iec559 := c10_param_lim_is_iec559; c10_l_is_bounded := c10_param_lim_is_bounded;
+  c10_l_is_modulo := c10_param_lim_is_modulo; c10_l_traps := c10_param_lim_traps;
+  c10_l_tinyness_before := c10_param_lim_tinyness_before;
+  c10_l_round_style_plus1 := c10_param_lim_round_style_plus1;
+  c10_l_min := c10_min n; c10_l_max := c10_max n;
+  c10_l_epsilon := c10_assign n c10_param_lim_epsilon_literal;
+  c10_l_round_error := c10_assign n c10_param_lim_round_error_literal;
+  c10_l_infinity := c10_assign n c10_param_lim_infinity_literal;
+  c10_l_quiet_NaN := c10_assign n c10_param_lim_quiet_NaN_literal;
+  c10_l_signaling_NaN := c10_assign n c10_param_lim_signaling_NaN_literal;
+  c10_l_denorm_min := c10_assign n c10_param_lim_denorm_min_literal |}.
+
+(* ---------- constructors.  bigunsignedint() : assign(0u).
+   template<Signed> bigunsignedint(Signed y): negative y throws Dune::Exception, otherwise assign(y)
+   (y converted to uintmax_t: value preserving for y >= 0).  sbits = width of the signed type. *)
+Definition c10_ctor_default (n : nat) : big := c10_assign n 0.
+Definition c10_ctor_signed (n : nat) (y : Z) : c10_res :=
+  if (y <? 0)%Z then C10_Exception else C10_Ok (c10_assign n (Z.to_N y)).
+(* implicit conversion of a built-in integer to std::uintmax_t (modulo 2^64), as applied to the built-in
+   argument of the free operator templates `operator+ (const bigunsignedint<k>&, std::uintmax_t)` etc.
+   when they are called with a signed argument *)
+Definition c10_to_uintmax (y : Z) : N := Z.to_N (y mod 2 ^ Z.of_N c10_param_uintmax_digits)%Z.
+
+(* ---------- the binary operators as one table (DUNE_BINOP: temp = *this; temp OP= x; return temp) *)
+Inductive c10_binop := OpAdd | OpSub | OpMul | OpDiv | OpMod | OpAnd | OpOr | OpXor.
+Definition c10_apply (n2 fuel : nat) (o : c10_binop) (a b : big) : c10_res :=
+  match o with
+  | OpAdd => C10_Ok (c10_add a b) | OpSub => C10_Ok (c10_sub a b) | OpMul => C10_Ok (c10_mul n2 a b)
+  | OpDiv => c10_div fuel a b | OpMod => c10_mod fuel a b
+  | OpAnd => C10_Ok (c10_and a b) | OpOr => C10_Ok (c10_or a b) | OpXor => C10_Ok (c10_xor a b)
+  end.
+(* free operator templates with a built-in operand on the right / on the left:
+   bigunsignedint<k> temp(y); return x OP temp;   resp.   bigunsignedint<k> temp(x); return temp OP y; *)
+Definition c10_free_right (n2 fuel : nat) (o : c10_binop) (x : big) (y : N) : c10_res :=
+  c10_apply n2 fuel o x (c10_assign (length x) y).
+Definition c10_free_left (n2 fuel : nat) (o : c10_binop) (x : N) (y : big) : c10_res :=
+  c10_apply n2 fuel o (c10_assign (length y) x) y.
+(* the same with a SIGNED built-in operand.  `_conv`: the code as written (one overload taking
+   std::uintmax_t: a negative argument is converted modulo 2^64 without any report);
+   `_signed`: the temporary is built by the constructor that matches the argument type
+   (proposed fix C10-5), so that negatives are rejected exactly as in direct construction. *)
+Definition c10_free_right_conv (n2 fuel : nat) (o : c10_binop) (x : big) (y : Z) : c10_res :=
+  c10_free_right n2 fuel o x (c10_to_uintmax y).
+Definition c10_free_left_conv (n2 fuel : nat) (o : c10_binop) (x : Z) (y : big) : c10_res :=
+  c10_free_left n2 fuel o (c10_to_uintmax x) y.
+Definition c10_free_right_signed (n2 fuel : nat) (o : c10_binop) (x : big) (y : Z) : c10_res :=
+  match c10_ctor_signed (length x) y with C10_Ok t => c10_apply n2 fuel o x t | e => e end.
+Definition c10_free_left_signed (n2 fuel : nat) (o : c10_binop) (x : Z) (y : big) : c10_res :=
+  match c10_ctor_signed (length y) x with C10_Ok t => c10_apply n2 fuel o t y | e => e end.
+
+(* ---------- compound division with the divisor ALIASING the dividend (`a /= a`, `a %= a`) in the code as
+   written: x is a reference to *this, so every `*this -= x` also zeroes the divisor the loop tests against *)
+Fixpoint c10_div_alias_loop (fuel : nat) (a result : big) : c10_res :=
+  match fuel with
+  | O => C10_OutOfFuel
+  | S f => if c10_ge a a then c10_div_alias_loop f (c10_sub a a) (c10_incr result) else C10_Ok result
+  end.
+Definition c10_div_alias (fuel : nat) (a : big) : c10_res :=
+  if c10_is_zero a then C10_MathError else c10_div_alias_loop fuel a (c10_zero (length a)).
+Fixpoint c10_mod_alias_loop (fuel : nat) (a : big) : c10_res :=
+  match fuel with
+  | O => C10_OutOfFuel
+  | S f => if c10_ge a a then c10_mod_alias_loop f (c10_sub a a) else C10_Ok a
+  end.
+Definition c10_mod_alias (fuel : nat) (a : big) : c10_res :=
+  if c10_is_zero a then C10_MathError else c10_mod_alias_loop fuel a.
+
+(* ---------- operator>> with the bounds of its first loop made explicit:
+   `for (unsigned int i=0; i<n-j; i++) result.digit[i] = digit[i+j]`  --  n-j is an int; for j > n it is
+   negative and converted to unsigned for the comparison, the loop then runs past both arrays.
+   (operator<< uses `for (int i=n-1-j; i>=0; i--)`: no iteration for j >= n, the result is zero.) *)
+Definition c10_shr_checked (a : big) (s : N) : c10_res :=
+  if Nat.ltb (length a) (N.to_nat (s / c10_bits)) then C10_OutOfBounds else C10_Ok (c10_shr a s).
+
+(* ---------- todouble: the double accumulator after every iteration of
+   `for(i=firstInZeroRange-1; i>=lastInRepresentableRange; --i) val = val*(1<<bits)+digit[i]` *)
+Definition c10_todouble_trace (a : big) : list N :=
+  let first := c10_first_in_zero_range a in
+  let repr := N.to_nat (c10_param_double_digits / c10_bits) in
+  let last := if Nat.ltb repr first then (first - repr)%nat else O in
+  let ds := rev (firstn (first - last)%nat (skipn last a)) in
+  snd (fold_left (fun '(v, tr) d => let v' := v * (N.shiftl c10_param_todouble_base_literal c10_bits) + d in (v', tr ++ [v'])) ds (0, [])).
+
+(* ---------- hash_value(arg) = hash_range(arg.digit, arg.digit+n): seed 0, hash_combine per digit;
+   hash_combiner<8> (64-bit size_t), Dune::hash<uint16_t> = std::hash<uint16_t> = the value itself *)
+Definition c10_hash_combine (seed h : N) : N :=
+  let M := 2 ^ c10_param_size_t_bits in
+  let a := (N.lxor seed h * c10_param_hash_kmul) mod M in
+  let a := N.lxor a (N.shiftr a c10_param_hash_shift_a) in
+  let b := (N.lxor h a * c10_param_hash_kmul) mod M in
+  let b := N.lxor b (N.shiftr b c10_param_hash_shift_b) in
+  (b * c10_param_hash_kmul) mod M.
+Definition c10_hash (a : big) : N := fold_left c10_hash_combine a c10_param_hash_seed0.
+
+(* ---------- operator<< (std::ostream&, x): x.print(s).  Stream state modelled: the base the stream is
+   left in (print ends with `s << std::dec` whatever the base was before). *)
+Inductive c10_base := C10_dec | C10_hex | C10_oct.
+Definition c10_stream_insert (st : list ascii * c10_base) (a : big) : list ascii * c10_base :=
+  (fst st ++ c10_print a, C10_dec).
